@@ -14,7 +14,7 @@ ASSUMPTIONS = ['gringo/clasp contract G1-G6 (DESIGN.md 5.3)', 'non-normal paths 
 
 def items(ctx, n=None):
     rng = ctx.rng('items')
-    n = n or (400 if ctx.quick else 3000)
+    n = n or (400 if ctx.quick else 1500)
     out = []
     for i in range(n):
         atoms = ['a', 'b'] if rng.random() < 0.7 else ['a', 'p(1)']
@@ -27,7 +27,7 @@ def items(ctx, n=None):
 
 def constraint_programs(ctx, n=None):
     rng = ctx.rng('constraints')
-    n = n or (120 if ctx.quick else 1000)
+    n = n or (120 if ctx.quick else 500)
     out = []
     for i in range(n):
         atoms = ['a', 'b']
@@ -53,7 +53,7 @@ def path_ops(p, acc):
 
 
 def run(ctx):
-    H = 3 if ctx.quick else 5
+    H = 3 if ctx.quick else 4
     its = items(ctx)
     recs = s4.value_check(ctx, its, H)
     cex = c03.value_cex(recs, its)
@@ -64,7 +64,7 @@ def run(ctx):
         if r['status'] in ('differ', 'implerror'):
             cex.insert(0, c03.value_cex([r], [(c, fs)])[0])
     progs = constraint_programs(ctx)
-    maxbits = 12 if ctx.quick else 15
+    maxbits = 12 if ctx.quick else 13
     H2 = 3 if ctx.quick else 4
     recs2 = s4.compare(ctx, [p for _, p in progs], H2, maxbits)
     res2 = c01.summarize(ctx, progs, recs2, H2, maxbits, 'C05')
